@@ -16,7 +16,10 @@ RULE = ("texts rendered by the layout generator from token lists (1-10 lines; bl
         "nested common prefixes, a factorised pair with nullable remainder, recursion) and over random C01 grammars with "
         "sampled sentences; lexical-error cases inject one foreign character next to a generated token; part arbitrary_text: "
         "any text over the tokenizer alphabet (with / without foreign characters, with comment characters) checked against the "
-        "token-stream invariants only. Non-trivial = a "
+        "token-stream invariants only; part context_spans: a second tokenizer configuration with two span tokens ('<<<', '%w') whose closer "
+        "counts only at the start of a line / not directly behind '<' or a word character / as a whole word, 1-5 lines of pieces "
+        "containing the closer characters in and out of such contexts, the complete token stream (names, spans, values) compared with a "
+        "hand-written scanner (non-trivial there = a closed span whose body contains the closer characters). Non-trivial = a "
         "parsed text of >=2 lines containing an un-indented line start, a blank line or a multi-line span token, or a tree "
         "with an empty node / a node of a factorised group; distinct by (grammar, text).")
 ASSUMPTIONS = [
@@ -537,6 +540,135 @@ def st_same_length(draw):
     return {"width": width, "records": recs, "seps": seps, "approx_len": nwords * (width + 2)}
 
 
+# ---------------------------------------------------------------------------
+# span tokens whose closer looks at its context (tokenizer configurations)
+# ---------------------------------------------------------------------------
+
+CTX_TOKENIZER = r"""
+    (?P<SPACE>\s+)
+    |(?P<HD><<<)
+    |(?P<PW>%w)
+    |(?P<WORD>[a-zA-Z_]+)
+    |(?P<NUM>[0-9]+)
+    |(?P<OP>[=;+<%])
+"""
+# closer kind -> regex handed to the tokenizer (documented: matched at the current position of the current line; its last
+# named group is the last line of the body)
+CTX_CLOSERS = {
+    "line_start": r"^(?P<LAST>)EOT\b",                       # the closer counts only at the beginning of a line
+    "not_behind": r"(?P<BODY>.*?)(?<![<\w])EOT",             # ... only when not directly behind '<' or a word character
+    "word": r"(?P<BODY>.*?)\bEOT\b",                         # ... only as a whole word
+}
+
+
+def _wordch(c):
+    return c.isalnum() or c == "_"
+
+
+def ctx_closer_at(kind, line, col):
+    """hand-written reading of the closer rule: index where the closer starts on this line looking from col, or None"""
+    if kind == "line_start":
+        ok = col == 0 and line.startswith("EOT") and not (len(line) > 3 and _wordch(line[3]))
+        return 0 if ok else None
+    i = line.find("EOT", col)
+    while i >= 0:
+        before = line[i - 1] if i > 0 else ""
+        after = line[i + 3] if i + 3 < len(line) else ""
+        if kind == "not_behind" and not (before == "<" or (before and _wordch(before))):
+            return i
+        if kind == "word" and not (before and _wordch(before)) and not (after and _wordch(after)):
+            return i
+        i = line.find("EOT", i + 1)
+    return None
+
+
+def ctx_reference(lines, kind):
+    """-> [(name, (line, col), (line, col), value)] or the string 'unclosed'"""
+    import re
+    rx = re.compile(CTX_TOKENIZER, re.VERBOSE)
+    out = []
+    span = None          # (name, start, [body lines])
+    for ln, line in enumerate(lines, start=1):
+        col = 0
+        while col < len(line):
+            if span is not None:
+                i = ctx_closer_at(kind, line, col)
+                if i is None:
+                    span[2].append(line[col:])
+                    col = len(line)
+                else:
+                    span[2].append(line[col:i])
+                    out.append((span[0], span[1], (ln, i + 3 + 1), "\n".join(span[2])))
+                    span = None
+                    col = i + 3
+                continue
+            m = rx.match(line, col)
+            if m is None:
+                return "lexical"
+            if m.lastgroup in ("HD", "PW"):
+                span = (m.lastgroup, (ln, col + 1), [])
+            else:
+                out.append((m.lastgroup, (ln, col + 1), (ln, m.end() + 1), m.group(0)))
+            col = m.end()
+    return "unclosed" if span is not None else out
+
+
+def eval_ctx_spans(case):
+    import ak.llparser as L
+    kind = case["kind"]
+    lines = [ln.rstrip() for ln in case["lines"]]
+    text = "\n".join(lines)
+    src = list(lines) if case.get("as_list") else text
+    tk = L._Tokenizer(CTX_TOKENIZER, span_matchers={"HD": CTX_CLOSERS[kind], "PW": CTX_CLOSERS[kind]})
+    ref = ctx_reference(lines, kind)
+    ctx = f"closer={CTX_CLOSERS[kind]!r} text={text!r} as_list={bool(case.get('as_list'))}"
+    classes = {"closer_" + kind}
+    f = []
+    try:
+        toks = list(tk.tokenize(src, "src"))[:-1]
+    except L.LexicalError as e:
+        toks = None
+        if ref == "unclosed":
+            classes.add("span_never_closed")
+        else:
+            f.append(("lexical_error_on_text_with_closed_spans", f"{ctx}: {e}"))
+    except Exception as e:   # noqa
+        toks = None
+        f.append(("tokenizer_raises_" + type(e).__name__, f"{ctx}: {e}"))
+    nt = False
+    if toks is not None:
+        if ref == "unclosed":
+            f.append(("unclosed_span_accepted", ctx))
+        else:
+            got = [(t.name, t.span[0], t.span[1], t.value) for t in toks]
+            if got != ref:
+                k = next((i for i, (a, b) in enumerate(zip(got, ref)) if a != b), min(len(got), len(ref)))
+                bucket = "span_token_region_wrong" if any(r[0] in ("HD", "PW") for r in ref[:k + 1]) else "token_stream_differs"
+                f.append((bucket, f"{ctx}: token {k} is {got[k] if k < len(got) else None!r}, the text has "
+                                  f"{ref[k] if k < len(ref) else None!r}"))
+            for r in ref:
+                if r[0] in ("HD", "PW"):
+                    classes.add("closed_span")
+                    if "EOT" in r[3]:
+                        classes.add("closer_characters_inside_the_body")
+                        nt = True
+                    if r[1][0] != r[2][0]:
+                        classes.add("multi_line_span_token")
+    return Outcome(nt, sorted(classes), f[:3], key=[kind, text, bool(case.get("as_list"))])
+
+
+@st.composite
+def st_ctx_case(draw):
+    piece = st.sampled_from(["<<<", "%w", "EOT", "EOT", "EOTx", "xEOT", " ", " ", "ab", "7", ";", "=", "<", "<EOT", " EOT", "EOT;",
+                             "\t", "EOT EOT"])
+    lines = ["".join(draw(st.lists(piece, max_size=6))) for _ in range(draw(st.integers(1, 5)))]
+    if draw(st.booleans()):
+        # a span opened early and closed by a line of its own at the end: whatever stands in between is its body
+        lines[0] = draw(st.sampled_from(["", "ab ", "7="])) + draw(st.sampled_from(["<<<", "%w"])) + lines[0]
+        lines.append("EOT" + draw(st.sampled_from(["", ";", " ab"])))
+    return {"kind": draw(st.sampled_from(sorted(CTX_CLOSERS))), "lines": lines, "as_list": draw(st.booleans())}
+
+
 def regression_cases():
     # F2: "ab\ncd" - first token of the second line; F3: EXPR -> TERM (empty factorisation suffix) followed by blanks
     yield {"grammar": "fixed", "smart": True, "inputs": [
@@ -553,6 +685,8 @@ def parts(tier):
         Part("arbitrary_text", evaluate, strategy=st_text_case, examples=6000 * k),
         Part("same_length_texts", eval_same_length_texts, strategy=st_same_length, examples=600 * k,
              note="streams of equally long texts parsed and dropped one after the other (identity / length keyed caches)"),
+        Part("context_spans", eval_ctx_spans, strategy=st_ctx_case, examples=2500 * k,
+             note="span tokens whose closer regex depends on what stands before / behind it (line start, look-behind, word boundary)"),
     ]
 
 
